@@ -32,7 +32,8 @@ def run(prog, rep, tier):
     kg = one_body(prog, rep, 'R19.1', 'mlar', exact='keygen')
     if kg is not None:
         clos = prog.closures_of(kg)
-        seeded = [(c, b) for c in clos for b in c.calls() if b.term.cmethod == 'from_seed' and b.term.ctrait.endswith('SeedableRng')]
+        # the seeded generator is built in the closure handed to map_or_else, or in the Some(seed) arm of a match in keygen itself
+        seeded = [(c, b) for c in clos + [kg] for b in c.calls() if b.term.cmethod == 'from_seed' and b.term.ctrait.endswith('SeedableRng')]
         ok = len(seeded) == 1
         msg = 'expected one from_seed site in the seed closure of keygen, found %d' % len(seeded)
         if ok:
@@ -51,11 +52,19 @@ def run(prog, rep, tier):
                     if ct.cmethod == 'digest' and T['keygen']['hash'] in ct.cargs.replace('VarCore', ''):
                         okd = True
                         ao = origins(c, [ct.args[0].place[0]])
-                        oks = any(c.blocks[x].term.cmethod == 'as_bytes' for x in ao.calls) and 2 in ao.params
-                    if ct.cmethod == 'index' and 'Range<' in ct.cargs:
+                        if c.kind == 'Closure':
+                            oks = any(c.blocks[x].term.cmethod == 'as_bytes' for x in ao.calls) and 2 in ao.params
+                        else:
+                            oks = any(c.blocks[x].term.cmethod == 'as_bytes' for x in ao.calls) and any(
+                                c.blocks[x].term.cmethod == 'get_one' and any(const_bytes_of(c, a) == b'seed' for a in c.blocks[x].term.args) for x in ao.calls)
+                    if ct.cmethod == 'index' and 'Range' in ct.cargs:
                         e = expr_of(c, ct.args[1])
-                        if e[0] == 'agg' and [o.const_int() for o in e[3].ops] == T['keygen']['range']:
-                            okr = True
+                        if e[0] == 'agg':
+                            vals = [const_eval(c, o) for o in e[3].ops]
+                            nm = e[3].j.get('adt', '').rsplit('::', 1)[-1]
+                            rng = vals if nm == 'Range' else ([0] + vals if nm == 'RangeTo' else None)
+                            if rng == T['keygen']['range']:
+                                okr = True
                 other_digest = [c.blocks[cb].term.cargs for cb in so.calls if c.blocks[cb].term.cmethod in ('digest', 'finalize', 'hash')]
                 if len(other_digest) != 1:
                     okd = False
@@ -76,6 +85,22 @@ def run(prog, rep, tier):
             okseedarg = any(kg.blocks[x].term.cmethod == 'get_one' and any(const_bytes_of(kg, a) == b'seed' for a in kg.blocks[x].term.args) for x in oo.calls)
             okuse = gk[0].term.args[0].place is not None and must_derive(kg, gk[0].term.args[0].place[0], lambda k, ob, bb: k == 'call' and bb == moe[0].idx)
             ok = okos and okcl and okseedarg and okuse
+        elif len(gk) == 1 and seeded and seeded[0][0] is kg:
+            # match form: Some(seed) => seeded generator, None => from_os_rng
+            fs = seeded[0][1]
+            osr = [b for b in kg.calls() if b.term.cmethod == 'from_os_rng' and 'ChaCha20Rng' in (b.term.callee.get('self_ty', '') + b.term.cargs)]
+            sel = None
+            for sbb, si in arm_of_enum_switch(prog, kg, adt='std::option::Option'):
+                oo = origins(kg, [si['place'][0]])
+                if any(kg.blocks[x].term.cmethod == 'get_one' and any(const_bytes_of(kg, a) == b'seed' for a in kg.blocks[x].term.args) for x in oo.calls):
+                    sel = (sbb, enum_arm_target(si, 'Some'), enum_arm_target(si, 'None'))
+            ok = False
+            if sel and len(osr) == 1 and sel[1] is not None and sel[2] is not None and sel[1] != sel[2]:
+                okarms = kg.edge_dominates((sel[0], sel[1]), fs.idx) and kg.edge_dominates((sel[0], sel[2]), osr[0].idx)
+                a0 = gk[0].term.args[0]
+                okuse = a0.place is not None and must_derive(kg, a0.place[0], lambda k, ob, bb: k == 'call' and bb in (fs.idx, osr[0].idx))
+                ok = okarms and okuse
+                moe = [fs]
         rep.ob('R19.1', ok, 'R19.1|mlar::keygen|generator-selection', 'generator = seed.map_or_else(ChaCha20Rng::from_os_rng, seeded closure) feeds generate_keypair' if ok else
                'keygen does not select between from_os_rng and the seeded generator as documented', kg.loc(moe[0].idx) if moe else kg.loc())
         check_outputs(kg, rep, 'R19.1', gk)
